@@ -222,11 +222,16 @@ def coq_makefile():
 
 
 def coq_make(targets, timeout=3000):
-    """Full .vo build of the given targets (relative to coq/).  Returns (ok, log)."""
-    coq_makefile()
-    cmd = ["timeout", str(timeout), "make", "-j%d" % NPROC] + list(targets)
+    """Full .vo build of the given targets (relative to coq/).  Returns (ok, log).
+    Serialised with a file lock: several checks may run at once but share one build tree."""
+    import fcntl
+    os.makedirs(BUILD, exist_ok=True)
     t0 = time.time()
-    p = subprocess.run(cmd, cwd=COQ, capture_output=True, text=True, env=ENV)
+    with open(os.path.join(BUILD, "coq.lock"), "w") as lk:
+        fcntl.flock(lk, fcntl.LOCK_EX)
+        coq_makefile()
+        cmd = ["timeout", str(timeout), "make", "-j%d" % NPROC] + list(targets)
+        p = subprocess.run(cmd, cwd=COQ, capture_output=True, text=True, env=ENV)
     log("[coq] make %s -> %d in %.1fs" % (" ".join(targets), p.returncode, time.time() - t0))
     return p.returncode == 0, p.stdout + p.stderr
 
